@@ -453,6 +453,13 @@ func (inst *Instance) StartSolo() error {
 // inject hands a queued notification to the wallet's listener, as the node's
 // chain goroutine would.
 func (inst *Instance) inject(d delivery) {
+	if inst.W.LogOn {
+		if d.block != nil {
+			inst.W.Logf("  deliver to %s: block h=%d %s (wallet synced=%d, node tip=%d)", inst.Name, d.block.Header.Height, d.block.BlockHash().String()[:10], inst.syncedQuiet(), inst.W.Node.Tip().Height)
+		} else {
+			inst.W.Logf("  deliver to %s: tx %s (wallet synced=%d, node tip=%d)", inst.Name, d.tx.TxHash().String()[:10], inst.syncedQuiet(), inst.W.Node.Tip().Height)
+		}
+	}
 	for _, l := range inst.srv.listeners() {
 		if d.block != nil {
 			l.OnBlockConnected(d.block)
@@ -534,4 +541,13 @@ func (inst *Instance) SortedWalletIDs() []string {
 	}
 	sort.Strings(ids)
 	return ids
+}
+
+// syncedQuiet reads the wallet's synced height for logging (ungated).
+func (inst *Instance) syncedQuiet() uint64 {
+	if inst.WM == nil {
+		return 0
+	}
+	h, _ := inst.WM.SyncedTo()
+	return h
 }
